@@ -155,6 +155,19 @@ def generate(tier):
                     '    let a = %s;\n    let b = a.clone();\n'
                     '    r.ck(matches!(&b, Ty::A(..)), 4, &|| "clone changed the variant".to_string());\n}\n') % mk.replace('{T}', 'String').replace('{U}', 'u8').replace('{t}', 'String::from("s")').replace('{u}', '7u8')
             cases.append(Case('C07|generic-method|%s|%s' % (kind, tl), src, {'shape': kind, 'traits': tl}, expect='accept', run=True, depth=2))
+    # items whose own where-clause is needed for well-formedness (a projection-typed field): every impl has to repeat it
+    for kind, decl, mk in (('sn', 'pub struct Ty<T> where T: Pr { pub a: <T as Pr>::Out, {M}pub b: K }', 'Ty::<Yes> { a: Yes, b: k(1) }'),
+                           ('st', 'pub struct Ty<T>(pub <T as Pr>::Out, {M}pub K) where T: Pr;', 'Ty::<Yes>(Yes, k(1))'),
+                           ('en', 'pub enum Ty<T> where T: Pr { A(<T as Pr>::Out, {M}K), B { x: <T as Pr>::Out, {M}y: K }, C }', 'Ty::<Yes>::A(Yes, k(1))')):
+        for tl in ('Clone', 'Copy, Clone'):
+            for m in ('', '#[educe(Clone(method(clone_m)))] '):
+                if m and tl != 'Clone' and kind != 'en':
+                    continue
+                src = '#[derive(Educe)]\n#[educe(%s)]\n%s\n' % (tl, decl.replace('{M}', m))
+                get = {'sn': 'y.b', 'st': 'y.1', 'en': 'match &y { Ty::A(_, q) => *q, Ty::B { y: q, .. } => *q, Ty::C => k(0) }'}[kind]
+                src += ('pub fn check(r: &mut Rep) {\n    let x = %s;\n    let y = x.clone();\n    let q: K = %s;\n    r.ck(q.val == 1, 0, &|| format!("clone() does not reproduce the field: {}", q.val));\n'
+                        '    let mut z = %s;\n    z.clone_from(&x);\n    let _ = &z;\n}\n') % (mk, get, mk.replace('k(1)', 'k(5)'))
+                cases.append(Case('C07|where-clause|%s|%s|%s' % (kind, tl, 'method' if m else 'plain'), src, {'shape': kind, 'traits': tl}, expect='accept', run=True, depth=2))
     from .common import zoo_cases
     cases += zoo_cases('C07', 'Clone', 'Debug, PartialEq', 'Debug, PartialEq, Clone',
                        '    for (i, (a, _)) in vs.iter().enumerate() {\n        let c = a.clone();\n'
